@@ -615,6 +615,22 @@ def run(ctx):
             fn, A, X, ring, gen.gtensor(got, ring)), cd)
         add_gen(fn, 'gok_t %s (to_dense_gen %s %d %s) %s' % (
             ring, A, GEN_FUEL, ('(f_value %s %s)' % (A, X)) if ferm else X, gen.gtensor(got, ring)), cd)
+        # ---- the same array with blocks of DIFFERENT element types (the narrowest stored first): the dense form holds every value
+        if not ferm and len(x.blocks) >= 2 and k % 3 == 0:
+            ks_ = list(x.blocks)
+            xm = x.copy()
+            xm.blocks[ks_[0]] = np.asarray(np.real(xm.blocks[ks_[0]])).astype('int64')
+            for kk in ks_[1:]:
+                xm.blocks[kk] = np.asarray(xm.blocks[kk]) + (0.5 if not cplx else 0.5 + 0.25j)
+            stats['to_dense_mixed_types'] = stats.get('to_dense_mixed_types', 0) + 1; ctx.count()
+            gotm, errm = call(lambda: xm.to_dense())
+            wantm = gen.densify(xm)
+            if errm:
+                bad('to_dense of an array whose blocks have different element types raises: %s' % errm, symmetry=sym, x=describe(xm))
+            elif np.asarray(gotm).shape != wantm.shape or not np.array_equal(np.asarray(gotm).astype('complex128'), wantm):
+                bad('to_dense of an array whose blocks have different element types loses values (first block %s, others %s)' % (
+                    np.asarray(xm.blocks[ks_[0]]).dtype, np.asarray(xm.blocks[ks_[1]]).dtype), symmetry=sym, x=describe(xm),
+                    got_dense=np.asarray(gotm), expected_dense=wantm)
         # ---- blocks -> dense -> blocks with the matching labels
         cms = [dict(ix.chargemap) for ix in x.indices]
         duals = [ix.dual for ix in x.indices]
